@@ -289,10 +289,21 @@ func ReplayLinkOps(cs *LoCase, profile int, backend string, scratch string) (*ru
 	}
 	var links []seen
 	expected := map[[2]int][]byte{} // independent CID per (p, v)
+	refused := refusedMidDocument()
 	for i, s := range cs.Steps {
 		ps := protos[s.P-1]
 		lp := cidlink.LinkPrototype{Prefix: ps.prefix}
 		target := "LinkSystem." + s.A + "[" + ps.name + "]"
+		// Every other step is preceded by operations that FAIL part way through a block (a node the codec must refuse
+		// after it has written something): a failed ComputeLink / Store leaves nothing behind -- the link of the next
+		// value is the function of (prototype, value) it always is.
+		if (i+profile)%2 == 0 {
+			r := refused[(i+profile/2)%len(refused)]
+			model.Safe(func() {
+				ls.ComputeLink(lp, r)
+				ls.Store(linking.LinkContext{}, lp, r)
+			})
+		}
 		// the independently computed link for (p, v)
 		key := [2]int{s.P, s.V}
 		if _, ok := expected[key]; !ok {
